@@ -117,7 +117,7 @@ func (m *Mast) Delete(ctx context.Context, key, value interface{}) error {
 		return fmt.Errorf("savePathForRoot: %w", err)
 	}
 	m.size--
-	for m.size < m.shrinkBelowSize && m.height > 0 {
+	for m.size <= m.shrinkBelowSize && m.height > 0 {
 		err = m.shrink(ctx)
 		if err != nil {
 			return fmt.Errorf("shrink: %w", err)
